@@ -65,7 +65,31 @@ type BlockPlan struct {
 const numAccounts = 6
 const numContracts = 3
 
-func drawOp(rt *rapid.T, p2psig bool) Op {
+func drawOp(rt *rapid.T, p2psig bool) Op { return drawOpMix(rt, p2psig, 0) }
+
+// drawOpMix draws one operation; mix biases the workload of a whole run (swarm style): 0 = the general mix,
+// 1 = governance parameters (Policy setters, whitelisted fees, attribute fees), 2 = contract life cycle and
+// storage, 3 = candidates and votes.
+func drawOpMix(rt *rapid.T, p2psig bool, mix int) Op {
+	o := drawOpGeneral(rt, p2psig)
+	if mix == 0 || rapid.IntRange(0, 1).Draw(rt, "mixhit") == 0 {
+		return o
+	}
+	switch mix {
+	case 1:
+		o.Kind = OpPolicy
+		if rapid.IntRange(0, 1).Draw(rt, "wl") == 1 {
+			o.X = 6 + rapid.IntRange(0, 1).Draw(rt, "wl2")
+		}
+	case 2:
+		o.Kind = []int{OpDeploy, OpInvoke, OpInvoke, OpInvoke, OpUpdate, OpDestroy, OpPayContract}[rapid.IntRange(0, 6).Draw(rt, "lc")]
+	case 3:
+		o.Kind = []int{OpVote, OpVote, OpRegister, OpUnregister, OpTransferNEO}[rapid.IntRange(0, 4).Draw(rt, "gv")]
+	}
+	return o
+}
+
+func drawOpGeneral(rt *rapid.T, p2psig bool) Op {
 	o := Op{}
 	// weights: storage-heavy and governance ops are the interesting ones
 	w := rapid.IntRange(0, 39).Draw(rt, "opk")
@@ -116,12 +140,13 @@ func drawOp(rt *rapid.T, p2psig bool) Op {
 
 func drawBlocks(rt *rapid.T, minB, maxB int, p2psig bool) []BlockPlan {
 	nb := rapid.IntRange(minB, maxB).Draw(rt, "nblocks")
+	mix := max(0, rapid.IntRange(0, 6).Draw(rt, "mix")-3)
 	bl := make([]BlockPlan, 0, nb)
 	for i := 0; i < nb; i++ {
 		b := BlockPlan{}
 		nops := rapid.IntRange(0, 5).Draw(rt, "nops")
 		for j := 0; j < nops; j++ {
-			b.Ops = append(b.Ops, drawOp(rt, p2psig))
+			b.Ops = append(b.Ops, drawOpMix(rt, p2psig, mix))
 		}
 		b.Primary = rapid.IntRange(0, 3).Draw(rt, "primary")
 		b.DT = rapid.IntRange(0, 3).Draw(rt, "dt") * 500
@@ -311,7 +336,31 @@ func (p *producer) buildTx(o Op, extraAttrs []transaction.Attribute) (tx *transa
 		desc = fmt.Sprintf("unregister a%d", o.A)
 	case OpPolicy:
 		signers = append(signers, p.committeeSigner())
-		switch o.X % 6 {
+		switch o.X % 8 {
+		case 6:
+			// few distinct (contract, method) pairs, so that a pair is set again with another fee and removed
+			kh := p.khash[o.B%2]
+			m, argc := "put", 2
+			if o.N%2 == 1 {
+				m, argc = "get", 1
+			}
+			if o.Y%4 != 3 {
+				fee := int64(o.Y%4) * 30000
+				script = callScript(nativehashes.PolicyContract, "setWhitelistFeeContract", kh, m, argc, fee)
+				desc = fmt.Sprintf("setWhitelistFeeContract K%d.%s %d", o.B%2, m, fee)
+			} else {
+				script = callScript(nativehashes.PolicyContract, "removeWhitelistFeeContract", kh, m, argc)
+				desc = fmt.Sprintf("removeWhitelistFeeContract K%d.%s", o.B%2, m)
+			}
+		case 7:
+			if o.Y%4 == 3 {
+				script = callScript(nativehashes.PolicyContract, "setMillisecondsPerBlock", 1000+o.N)
+				desc = fmt.Sprintf("setMillisecondsPerBlock %d", 1000+o.N)
+			} else {
+				at := []transaction.AttrType{transaction.HighPriority, transaction.OracleResponseT, transaction.NotValidBeforeT, transaction.ConflictsT, transaction.NotaryAssistedT}[o.N%5]
+				script = callScript(nativehashes.PolicyContract, "setAttributeFee", int64(at), int64(o.Y)*100000)
+				desc = fmt.Sprintf("setAttributeFee %d %d", at, int64(o.Y)*100000)
+			}
 		case 0:
 			script = callScript(nativehashes.PolicyContract, "setFeePerByte", 500+o.N)
 			desc = fmt.Sprintf("setFeePerByte %d", 500+o.N)
